@@ -118,11 +118,21 @@ func init() {
 					line = l
 					// mrp prints the reason on the following line: keep its
 					// innermost cause, identifiers blanked
-					if strings.Contains(l, "Error resolving") && i+1 < len(lines) {
-						detail := strings.TrimSpace(lines[i+1])
+					if strings.Contains(l, "Error resolving") {
+						// the reason follows on indented lines, innermost cause last
+						detail := ""
+						for _, d := range lines[i+1:] {
+							if len(d) == 0 || (d[0] != ' ' && d[0] != '\t') || strings.HasPrefix(strings.TrimSpace(d), "at ") {
+								break
+							}
+							detail = strings.TrimSpace(d)
+						}
 						if k := strings.LastIndex(detail, ": "); k >= 0 {
-							cause := c07Ident.ReplaceAllString(detail[k+2:], "#")
-							line = l + " / " + cause
+							detail = detail[k+2:]
+						}
+						if detail != "" {
+							cause := regexp.MustCompile(`[0-9]+`).ReplaceAllString(c07Ident.ReplaceAllString(detail, "#"), "N")
+							line = regexp.MustCompile(` for ID\S*`).ReplaceAllString(l, "") + " / " + cause
 						}
 					}
 					break
@@ -133,6 +143,13 @@ func init() {
 				if _, site := vf.CrashSite(out); site != "" {
 					cls, sigTail = "panic", site
 				}
+			}
+			if m := c07ForkRe.FindStringSubmatch(out); m != nil && res.obs != nil {
+				if res.model == nil {
+					res.model, _ = vmon.Analyze(res.obs, res.prog)
+				}
+				// the stage call whose bindings could not be resolved
+				sigTail += vmon.AliasSuffix(res.prog, res.model, strings.ReplaceAll(m[1], ".", "/"))
 			}
 			c.Violate("C07:runtime-error:"+cls+":"+sigTail,
 				fmt.Sprintf("compiler-accepted program fails at run time under --strict=error with conforming stage outputs: %s", truncate(line, 400)),
@@ -162,6 +179,8 @@ func init() {
 }
 
 var idNumRe = regexp.MustCompile(`[A-Z]+[0-9]+|[a-z_]+[0-9]+`)
+
+var c07ForkRe = regexp.MustCompile(`Error resolving input argument bindings for ID\.psid\.([A-Za-z0-9_.]+?)\.fork`)
 
 var c07Ident = regexp.MustCompile(`\b[A-Z][A-Z0-9_]*[0-9][A-Z0-9_]*\b|\b(GEN|USE|USE2|NOP|CHK|INNER|TOP|LEAF|MID|FLAG|DATA|WORK|SUB|AFTER|M[0-9]|G[0-9]|U[AB])\b`)
 
